@@ -159,7 +159,7 @@ func (this *RaftGroup) Start() error {
 			return err
 		}
 	}
-	verifOnSnapshotApplied(this, snap)
+	verifOnStart(this, snap)
 	this.started = true
 	go this.run()
 	return nil
